@@ -657,6 +657,8 @@ class PackageGenerator:
             subs = [s if len(s) > 1 else f"{s}_part" for s in subs]
         sub_a, sub_b = (subs + subs)[0], (subs + subs)[1]
         self.inits[top] = []
+        if r.random() < 0.4:
+            self.inits[top].append(f'__version__ = "{r.randint(0, 3)}.{r.randint(0, 9)}.{r.randint(0, 9)}"')
         for s in subs:
             self.inits[f"{top}.{s}"] = []
         if self.f("DEEP_PACKAGE"):
